@@ -8,6 +8,7 @@ import Qfx.Lemmas.CodecTotal
 import Qfx.Lemmas.CodecBody
 import Qfx.Lemmas.CodecXml
 import Qfx.Lemmas.CodecDictSegs
+import Qfx.Lemmas.CodecDictStack
 import Qfx.Lemmas.CodecDictExample
 open Qfx Qfx.Spec
 
@@ -232,6 +233,55 @@ theorem C11_faithful_dict_groups (d : Dicts) (mt : Bytes) (t8 t9 t35 t10 : TagVa
   simp only [Field.items]
   rw [hL, e, List.drop_left, e2, List.take_left]
 
+/-- THE SAME FOR REPEATING GROUPS WITH NESTED GROUPS OF ANY DEPTH (fixed code): `fs` the application dictionary's field list of the
+    message type (`AppMsg`); every run (`SegOKN`) = plain fields, the count field of a group of `fs`, member fields that move the
+    parser's tag stack as `stepSpec` says — stay, push a nested group, pop to the enclosing level that lists the tag (any number of levels,
+    the D6 pop), pop and push (`WalkN`) —, and a plain body field `z` that no level of the stack lists.  The parse succeeds,
+    `Message.fields` = the wire's field list, `Bytes()` = the wire, every group whose tag is not set again later is in the body as exactly
+    its count field and all its member fields, and every such `z` whose tag is not set again later is returned by `Body.GetBytes`. -/
+theorem C11_faithful_dict_groups_anydepth (d : Dicts) (mt : Bytes) (fs : List DNode) (ha : AppMsg d mt fs)
+    (t8 t9 t35 t10 : TagValue) (segs : List Seg) (post : List TagValue)
+    (hw8 : IsWire t8) (hw9 : IsWire t9) (hw35 : IsWire t35) (hw10 : IsWire t10)
+    (h8 : t8.tag = 8) (h9 : t9.tag = 9) (h35 : t35.tag = 35) (h10 : t10.tag = 10) (hv : t35.value = mt)
+    (hsegs : ∀ s ∈ segs, SegOKN d mt fs s) (hpost : PlainFields d post)
+    (hng10 : NoGroupTag d 10) (hh10 : isHeaderField d 10 = false)
+    (hbl : atoi t9.value = .ok ((fieldsLength (t8 :: t9 :: t35 :: (segs.flatMap Seg.flat ++ (post ++ [t10]))) : Nat) : Int)) :
+    ∃ m, parseMessage Fixes.cur d (wireOf (t8 :: t9 :: t35 :: (segs.flatMap Seg.flat ++ (post ++ [t10])))) = .ok m ∧
+      m.fields = t8 :: t9 :: t35 :: (segs.flatMap Seg.flat ++ (post ++ [t10])) ∧
+      m.bytes Fixes.cur = .ok (wireOf (t8 :: t9 :: t35 :: (segs.flatMap Seg.flat ++ (post ++ [t10]))), m) ∧
+      (∀ (A : List Seg) (s : Seg) (B : List Seg), segs = A ++ s :: B →
+        (∀ tv ∈ s.z0 :: (B.flatMap Seg.adds ++ post), tv.tag ≠ s.g0.tag) →
+        ∃ f, alFind m.body.lookup s.g0.tag = some f ∧ f.items m.fields = s.g0 :: s.M) ∧
+      (∀ (A : List Seg) (s : Seg) (B : List Seg), segs = A ++ s :: B →
+        (∀ tv ∈ B.flatMap Seg.adds ++ post, tv.tag ≠ s.z0.tag) → m.body.getBytes m.fields s.z0.tag = .ok s.z0.value) := by
+  obtain ⟨m, hparse, hfields, hraw, hgrp, hzf⟩ := parse_dict_segsN (d := d) ha t8 t9 t35 t10 segs post hw8 hw9 hw35 hw10 h8 h9 h35 h10 hv
+    hsegs hpost hng10 hh10 hbl
+  refine ⟨m, hparse, hfields, by simp [Message.bytes, hraw], ?_, ?_⟩
+  · intro A s B hsplit huniq
+    refine ⟨_, hgrp A s B hsplit huniq, ?_⟩
+    rw [hfields, hsplit]
+    have hL : t8 :: t9 :: t35 :: ((A ++ s :: B).flatMap Seg.flat ++ (post ++ [t10])) =
+        (t8 :: t9 :: t35 :: (A.flatMap Seg.flat ++ s.pre)) ++ ((s.g0 :: s.M) ++ (s.z0 :: (B.flatMap Seg.flat ++ (post ++ [t10])))) := by
+      simp [Seg.flat, List.flatMap_append]
+    have e : 3 + (A.flatMap Seg.flat).length + s.pre.length = (t8 :: t9 :: t35 :: (A.flatMap Seg.flat ++ s.pre)).length := by
+      simp; omega
+    have e2 : 1 + s.M.length = (s.g0 :: s.M).length := by simp; omega
+    simp only [Field.items]
+    rw [hL, e, List.drop_left, e2, List.take_left]
+  · intro A s B hsplit huniq
+    apply getBytes_view _ _ _ _ s.z0 (hzf A s B hsplit huniq)
+    rw [hfields, hsplit]
+    have hL : t8 :: t9 :: t35 :: ((A ++ s :: B).flatMap Seg.flat ++ (post ++ [t10])) =
+        (t8 :: t9 :: t35 :: (A.flatMap Seg.flat ++ (s.pre ++ s.g0 :: s.M))) ++ (s.z0 :: (B.flatMap Seg.flat ++ (post ++ [t10]))) := by
+      simp [Seg.flat, List.flatMap_append]
+    rw [hL, List.getElem?_append_right (by simp; omega)]
+    have : 3 + (A.flatMap Seg.flat).length + s.pre.length + 1 + s.M.length -
+        (t8 :: t9 :: t35 :: (A.flatMap Seg.flat ++ (s.pre ++ s.g0 :: s.M))).length = 0 := by simp; omega
+    rw [this]; rfl
+
+/-! non-vacuity of `SegOKN` (three nesting levels, a pop over two levels): Qfx/Lemmas/CodecDictExample.lean -/
+example := @exSegOKN
+
 /-! non-vacuity of `SegOK` (a run with a two-entry NoPartyIDs group, nested NoPartySubIDs): Qfx/Lemmas/CodecDictExample.lean -/
 example := @exSegOK
 
@@ -340,7 +390,8 @@ example : (extractField [56, 61, 70, 1, 57, 61, 53, 1]).1 = [57, 61, 53, 1] := b
         C11_retrievable_nodict; app / transport+app dictionaries, messages without dictionary groups: C11_faithful_dict_nogroups;
         XMLData with its length (any dictionaries without groups): C11_faithful_xml; any number of dictionary groups with up to two
         nesting levels, plain fields between: C11_faithful_dict_groups (one group: C13_dict_flat_group_*, C13_dict_depth2_group_*);
-        deeper nesting, adjacent groups: C11_faithful_full, C11_retrievable_full (monitor)
+        any nesting depth: C11_faithful_dict_groups_anydepth; groups directly adjacent / directly followed by a header or trailer
+        field: C11_faithful_full, C11_retrievable_full (monitor)
         (monitor clauses accepts_wf, fields_faithful, parsed_sections, retrievable, raw_unchanged); field slicing: C11_extractField_slices
    "first three fields are not 8, 9, 35 … rejected"                                          C11_rejects_order
    (byte layer of C03: bodyBytes)                                                             C11_bodyBytes_nodict
